@@ -17,7 +17,7 @@ def opt(name, default):
         i = args.index(name); v = args[i + 1]; del args[i:i + 2]; return v
     return default
 MAX = int(opt('--max', '60'))
-WORKERS = int(opt('--workers', '12'))
+WORKERS = int(opt('--workers', '4'))
 SEED = int(opt('--seed', '1'))
 EXTRA = opt('--functions', '')
 
@@ -152,7 +152,7 @@ def work(job):
     orig = open(target).read()
     try:
         open(target, 'w').write(new)
-        env = dict(os.environ, PYTHONPATH=wt)
+        env = dict(os.environ, PYTHONPATH=wt, VERIF_PROCS='4')      # side-by-side runs must not starve the solver
         t = sh('cd %s && timeout 600 /venv/bin/python -m pytest -q -x -p no:cacheprovider --timeout=300 '
                '--deselect tests/functional/registration --deselect tests/functional/subcommands '
                '--ignore=tests/functional/registration --ignore=tests/functional/subcommands 2>&1 | tail -3' % wt, env=env)
